@@ -453,6 +453,33 @@ pub fn scale_family(kind: &str, n: usize) -> Shape {
             t = 2;
             m = 0;
         }
+        "ident-shapes" => {
+            // identifier shapes in every position the generator renames or re-cases (struct, member, variable, entry,
+            // override, constant names): n selects the shape; cost must not depend on how a name is spelled
+            let long = "x".repeat(4000);
+            let caps = "ABCDEFGHIJKLMNOPQRSTUVWXYZ".repeat(40);
+            let unders = format!("a{}b", "_".repeat(60));
+            let mixed = "aB_".repeat(400);
+            let shape: &str = match n {
+                0 => "Double__Underscore",
+                1 => "trailing_underscore__",
+                2 => "Triple___Mid___Runs",
+                3 => &unders,
+                4 => &long,
+                5 => &caps,
+                6 => "x9_9__9___9",
+                7 => "\u{c9}__\u{df}_\u{3a3}\u{3a3}__\u{3c3}",
+                8 => &mixed,
+                _ => "A_B__C___D____E",
+            };
+            src.push_str(&format!("struct {shape}_V {{ @location(0) {shape}_m: vec4<f32>, @location(1) second__m: vec2<f32> }};\nstruct {shape}_H {{ {shape}_f: vec4<f32>, other__f: f32 }};\n@group(0) @binding(0) var<uniform> {shape}_u: {shape}_H;\noverride {shape}_o: f32 = 1.0;\nconst {shape}_c: u32 = 3u;\nvar<push_constant> {shape}_p: vec4<f32>;\n"));
+            src.push_str(&format!("@vertex fn {shape}_vs(v: {shape}_V) -> @builtin(position) vec4<f32> {{ return v.{shape}_m * {shape}_u.{shape}_f * {shape}_o + {shape}_p; }}\n@fragment fn {shape}_fs() -> @location(0) vec4<f32> {{ return vec4<f32>(f32({shape}_c)); }}\n@compute @workgroup_size(1) fn {shape}_cs() {{ }}\n"));
+            e = 3;
+            f = 3;
+            g = 2;
+            t = 4;
+            m = 4;
+        }
         "huge-group-index" | "huge-binding-index" => {
             // numeric attribute values: cost must not depend on the magnitude of an index (n = the index value; the
             // group variant is refused as non-consecutive, the binding variant is accepted)
@@ -786,6 +813,7 @@ pub fn scale_cases() -> Vec<(&'static str, usize)> {
         ("entries+fmt", vec![64]),
         ("huge-group-index", vec![1_000, 100_000_000, 4_294_967_295]),
         ("huge-binding-index", vec![1_000, 100_000_000, 4_294_967_295]),
+        ("ident-shapes", vec![0, 1, 2, 3, 4, 5, 6, 7, 8, 9]),
         ("override-diamond", vec![8, 24, 48]),
         ("const-diamond", vec![8, 24, 48]),
         ("array-nesting-1", vec![8, 24, 40, 60]),
